@@ -1,5 +1,6 @@
 //! Correspondence harness: drives the real egglog crates (built from /repo's working tree,
 //! with `--cfg egglog_verif`) and the Lean model driver on the same inputs.
+mod engine;
 mod lean;
 mod report;
 mod rng;
@@ -19,6 +20,16 @@ impl Ctx {
 }
 
 fn main() {
+    // Parallel code paths are chosen by `len > cutoff && threads > 1`; with every cut-off at 0 the
+    // thread count of an EGraph alone selects serial (1) or parallel (>1) implementations.
+    // The cut-offs are read once per process, so this must happen before any engine call.
+    if std::env::var("VERIF_DEFAULT_CUTOFFS").is_err() {
+        for v in ["DB_LEVEL_OP", "INDEX_CONSTRUCTION", "REBUILD", "INTRA_CONTAINER", "INTER_CONTAINER", "TABLE_OP"] {
+            let key = format!("EGGLOG_PARALLEL_{v}_CUTOFF");
+            if std::env::var(&key).is_err() { unsafe { std::env::set_var(&key, "0"); } }
+        }
+    }
+    engine::silence_panics();
     let args: Vec<String> = std::env::args().collect();
     if args.len() < 2 { eprintln!("usage: vharness <prop> [--tier t] [--seed n] [--out f] [--replay f]"); std::process::exit(2); }
     let prop = args[1].clone();
@@ -38,6 +49,7 @@ fn main() {
     }
     let ctx = Ctx { tier_thorough: tier == "thorough", seed, replay };
     if prop == "child" { props::child::main(&args[2..]); return; }
+    if prop == "bench" { props::child::bench(); props::child::bench2(); return; }
     let rep: Report = match props::run(&prop, &ctx) {
         Some(r) => r,
         None => { eprintln!("unknown property {prop}"); std::process::exit(2); }
